@@ -12,8 +12,9 @@
 (* completion.                                                             *)
 (*                                                                         *)
 (* Faults (bounded by Budget): a call ends with deadline-exceeded, a       *)
-(* worker dies (its pending call never answers, heartbeats stop), an       *)
-(* application error.  One worker is never faulted (UsableWorker).         *)
+(* worker dies (its pending call never answers, heartbeats stop), a dead   *)
+(* worker rejoins with an empty server, an application error.  One worker  *)
+(* is never faulted (UsableWorker).                                        *)
 (***************************************************************************)
 EXTENDS Integers, Sequences, FiniteSets, TLC
 
@@ -106,10 +107,18 @@ Die(w) ==
   /\ alive' = [alive EXCEPT ![w] = FALSE] /\ budget' = budget - 1
   /\ UNCHANGED <<todo, runOn, co, pos, outputs, states, timeouts, finished, loopEnd>>
 
+\* a dead worker rejoins (its server is restarted, as a new process would be): it is alive again and has lost
+\* whatever generator it was serving - the calls of a coroutine still attached to it end with a retriable error
+Rejoin(w) ==
+  /\ budget > 0 /\ ~alive[w]
+  /\ alive' = [alive EXCEPT ![w] = TRUE] /\ budget' = budget - 1
+  /\ co' = [t \in Tasks |-> IF runOn[t] = w /\ co[t] \in {"init", "next"} THEN "timeout" ELSE co[t]]
+  /\ UNCHANGED <<todo, runOn, pos, outputs, states, timeouts, finished, loopEnd>>
+
 Terminated == loopEnd # "run" /\ UNCHANGED vars
 Next == \/ \E t \in Tasks, w \in Workers : Submit(t, w)
         \/ \E t \in Tasks : PollDone(t) \/ PollDead(t) \/ CallOk(t) \/ CoFinish(t) \/ Deadline(t) \/ AppError(t)
-        \/ \E w \in Workers : Die(w)
+        \/ \E w \in Workers : Die(w) \/ Rejoin(w)
         \/ LoopExit \/ Terminated
 Spec == Init /\ [][Next]_vars /\ WF_vars(Next)
 
